@@ -114,49 +114,62 @@ type connProvider struct {
 
 func (p connProvider) NATSConnection() *nats.Conn { return p.nc }
 
-func callerSrc() string {
-	pcs := make([]uintptr, 24)
+func callerSrc() (string, int) {
+	pcs := make([]uintptr, 64)
 	n := runtime.Callers(3, pcs)
 	frames := runtime.CallersFrames(pcs[:n])
 	src := ""
+	depth := 0
+	ret := func(s string) (string, int) { return s, depth }
+	_ = ret
+	var all []string
 	for {
 		f, more := frames.Next()
-		fn := f.Function
+		all = append(all, f.Function)
+		if !more {
+			break
+		}
+	}
+	for _, fn := range all {
+		if strings.HasSuffix(fn, "/leader.(*kvElection).attemptAcquire") {
+			depth++
+		}
+	}
+	for _, fn := range all {
+		more := true
 		if strings.Contains(fn, "/leader.(*kvElection).") {
 			switch {
 			case strings.Contains(fn, "heartbeatLoop"):
-				return "hb"
+				return "hb", depth
 			case strings.Contains(fn, "validateToken"):
-				return "validate"
+				return "validate", depth
 			case strings.Contains(fn, "verifyLeadershipAfterReconnect"):
-				return "verify"
+				return "verify", depth
 			case strings.Contains(fn, "checkKeyAndReelect"):
-				return "check"
+				return "check", depth
 			case strings.Contains(fn, "attemptPriorityTakeover"):
-				return "takeover"
+				return "takeover", depth
 			case strings.Contains(fn, "attemptAcquire"):
 				if src == "" {
 					src = "acq"
 				}
 			case strings.Contains(fn, "watchLoop"):
-				return "watch"
+				return "watch", depth
 			case strings.Contains(fn, "StopWithContext"):
-				return "stop"
+				return "stop", depth
 			}
 		}
-		if !more {
-			break
-		}
+		_ = more
 	}
 	if src == "" {
 		src = "other"
 	}
-	return src
+	return src, depth
 }
 
 func (h *Handle) issue(kind, key string, val []byte, exp uint64) *Item {
 	w := h.w
-	src := callerSrc()
+	src, depth := callerSrc()
 	w.mu.Lock()
 	w.nextID++
 	it := &Item{id: w.nextID, inst: h.inst, kind: kind, src: src, key: key, val: val, exp: exp,
@@ -167,7 +180,7 @@ func (h *Handle) issue(kind, key string, val []byte, exp uint64) *Item {
 	w.decide(it, now)
 	w.items = append(w.items, it)
 	w.mu.Unlock()
-	kv := KV{"op": it.id, "kind": kind, "src": src, "key": key, "exp": int64(exp)}
+	kv := KV{"op": it.id, "kind": kind, "src": src, "key": key, "exp": int64(exp), "depth": depth}
 	w.describeVal(kv, val, kind == "create" || kind == "update")
 	w.tr.Emit(h.inst, "op_issue", kv)
 	return it
@@ -477,7 +490,7 @@ func (w *World) setup() error {
 		if !c.NoCallbacks {
 			el.OnPromote(func(ctx context.Context, tok string) {
 				term := int(in.np.Add(1))
-				w.tr.Emit(c.ID, "promote", KV{"tok": w.tr.Tok(tok), "term": term, "ctx_err": ctx.Err() != nil})
+				w.tr.Emit(c.ID, "promote", KV{"tok": w.tr.Tok(tok), "term": term, "ctx_err": ctx.Err() != nil, "blocks": !c.PromoteReturn})
 				if !c.PromoteReturn {
 					<-ctx.Done()
 					w.tr.Emit(c.ID, "ctx_done", KV{"term": term})
@@ -509,9 +522,18 @@ func (w *World) setup() error {
 		instInfo[c.ID] = map[string]any{"prio": c.Prio, "tk": c.Takeover, "hn": hn, "conn": c.Conn,
 			"grace": grace, "vi": vi, "group": group, "h": h, "ttl": ttl, "cb": !c.NoCallbacks, "ddur": c.DemoteDurUs}
 	}
+	slowMax := int64(0)
+	for _, r := range sc.Rules {
+		if r.Match.Kind == "deliver" && strings.HasPrefix(r.Fault, "slow:") {
+			if v, _ := strconv.ParseInt(r.Fault[5:], 10, 64); v > slowMax {
+				slowMax = v
+			}
+		}
+	}
+	sc.slowMax = slowMax
 	w.tr.Emit("env", "reset", KV{"name": sc.Name, "h": sc.HUs, "ttl": sc.TTLUs, "bttl": sc.BucketTTLUs,
 		"insts": instInfo, "ids": w.order, "family": sc.Family, "origin": sc.Origin,
-		"lat_max": sc.LatMaxUs, "watch_max": sc.WatchMaxUs, "end": sc.EndUs, "ptimeout": sc.PartTimeoutUs})
+		"lat_max": sc.LatMaxUs, "watch_max": sc.WatchMaxUs + sc.slowMax, "end": sc.EndUs, "ptimeout": sc.PartTimeoutUs})
 	for i := range sc.Steps {
 		s := &sc.Steps[i]
 		if s.When != nil {
@@ -870,6 +892,7 @@ func (w *World) apply(it *Item, nowUs int64) {
 	kv["rev"] = int64(it.rev)
 	kv["err"] = errName(it.err)
 	kv["was_live"] = prevLive
+	kv["lost"] = it.fault == "lose_ack"
 	if it.kind == "create" || it.kind == "update" {
 		w.describeVal(kv, it.val, true)
 	} else if it.kind != "get" || it.err != nil {
@@ -1050,7 +1073,11 @@ func (w *World) exec(s *Step, now int64) {
 		if s.Vod {
 			call = "vod"
 		}
-		w.tr.Emit(s.I, "val_call", KV{"call": call, "ctx": s.CtxUs, "leader": in.el.IsLeader(), "tok": w.tr.Tok(in.el.Token())})
+		w.mu.Lock()
+		w.nextID++
+		cid := w.nextID
+		w.mu.Unlock()
+		w.tr.Emit(s.I, "val_call", KV{"call": call, "cid": cid, "ctx": s.CtxUs, "leader": in.el.IsLeader(), "tok": w.tr.Tok(in.el.Token())})
 		in.apiBusy.Add(1)
 		go func() {
 			ctx, cancel := w.mkctx(s.CtxUs)
@@ -1063,7 +1090,7 @@ func (w *World) exec(s *Step, now int64) {
 				ok, err = in.el.ValidateToken(ctx)
 			}
 			in.apiBusy.Add(-1)
-			w.tr.Emit(s.I, "val_ret", KV{"call": call, "ok": ok, "err": err != nil, "leader": in.el.IsLeader()})
+			w.tr.Emit(s.I, "val_ret", KV{"call": call, "cid": cid, "ok": ok, "err": err != nil, "leader": in.el.IsLeader()})
 		}()
 	case "disc":
 		w.tr.Emit(s.I, "disc", nil)
@@ -1110,6 +1137,15 @@ func (w *World) exec(s *Step, now int64) {
 	case "heal":
 		w.mu.Lock()
 		in.partition = ""
+		// requests swallowed by the partition fail with the client's time-out at the latest now
+		for _, it := range w.items {
+			if it.inst == s.I && it.kind != "deliver" && it.dueUs == never && !it.held {
+				if it.phase == "pre" {
+					it.fault = "timeout"
+				}
+				it.dueUs = now
+			}
+		}
 		w.mu.Unlock()
 		w.tr.Emit(s.I, "heal", nil)
 	case "out_put":
